@@ -1,12 +1,16 @@
 import Driver.FtWire
 import Koreo.Lemmas.ExactCompare
+import Koreo.MockApi
 namespace Koreo.Driver.C19
 open MiniJson Koreo Koreo.Exact Koreo.FT Koreo.Wire Koreo.Driver.Ft
 
 /-- {"op":"match","t":w,"a":w}            → {"m":bool,"wf":bool}
     {"op":"key","fields":[w…],"o":w}      → {"k":str}            (`_obj_to_key`)
     {"op":"strip","v":w}                  → {"v":w}              (repaired `_strip_last_applied_annotation`)
-    {"op":"verdict","as":assertion,"out":outcome,"eff":effect} → {"pass":bool} -/
+    {"op":"verdict","as":assertion,"out":outcome,"eff":effect} → {"pass":bool}
+    {"op":"conv-verdict","as":assertion,"out":outcome,"cur":opt,"calls":[{"c":"get"|"delete"|"write","body":w}…]}
+      → {"pass":bool,"eff":effect}   (the verdict over `Mock.effectOf cur calls`: what the per-case mock
+                                      holds after the conversation the Function had with it) -/
 def handle (j : J) : Except String J := do
   match (← j.getStr "op") with
   | "match" =>
@@ -23,6 +27,18 @@ def handle (j : J) : Except String J := do
     let a ← toAssertion (j.getD "as")
     let r ← toFnResult j
     pure (.obj [("pass", .bool (verdict a r))])
+  | "conv-verdict" =>
+    let a ← toAssertion (j.getD "as")
+    let out ← toOut (j.getD "out")
+    let cur ← optWire (j.getD "cur")
+    let calls ← (← j.getArr "calls").mapM fun c => do
+      match (← c.getStr "c") with
+      | "get" => pure Mock.Call.get
+      | "delete" => pure Mock.Call.delete
+      | "write" => pure (Mock.Call.write (← toJVal (c.getD "body")))
+      | x => throw s!"bad call {x}"
+    let eff := Mock.effectOf cur calls
+    pure (.obj [("pass", .bool (verdict a { out := out, eff := eff })), ("eff", ofEff eff)])
   | op => throw s!"bad op {op}"
 
 end Koreo.Driver.C19
